@@ -18,7 +18,7 @@ import traceback
 VERIF = os.path.dirname(os.path.dirname(os.path.abspath(__file__)))
 REPO = os.environ.get("PYVC_REPO", "/repo")
 VENV_PY = "/venv/bin/python"
-TASK_TIMEOUT_S = int(os.environ.get("PYVC_TASK_TIMEOUT_S", "900"))
+TASK_TIMEOUT_S = int(os.environ.get("PYVC_TASK_TIMEOUT_S", "1800"))
 
 
 class Task:
